@@ -273,6 +273,15 @@ impl StreamTrait for StreamImpl {
         frame: &StopSending,
         events: &mut StreamEvents,
     ) -> Result<(), transport::Error> {
+        //= https://www.rfc-editor.org/rfc/rfc9000#section-19.5
+        //# An endpoint that receives a STOP_SENDING frame for a
+        //# receive-only stream MUST terminate the connection with error
+        //# STREAM_STATE_ERROR.
+        if !self.has_send {
+            return Err(transport::Error::STREAM_STATE_ERROR
+                .with_reason("STOP_SENDING sent on receive-only stream"));
+        }
+
         self.send_stream.on_stop_sending(frame, events)
     }
 
